@@ -541,6 +541,16 @@ def declarations():
             f["shots"] = 2
             w.funcs.append(f)
         out.append(case("decl:shots:%s" % target, "shots", w, "@shots on %s" % target))
+    # @shots on a function that is also @quantum (void / bit results), next to an annotated and an unannotated main
+    for rt, rs in ((VOID, []), (TY["bit"], [Ret(Bit(1))])):
+        for main_too in (False, True):
+            w = World()
+            if main_too:
+                w.main_shots = 3
+            f = Func("qsf", [], rt, list(rs), quantum=True)
+            f["shots"] = 2
+            w.funcs.append(f)
+            out.append(case("decl:shots:quantum:%s:%s" % ("void" if rt == VOID else "bit", main_too), "shots", w, "@shots on a @quantum function"))
     # void variables / parameters / fields
     for hole in ("main", "m_base", "s_base", "c_base", "d_base"):
         for sh in ("plain", "if_then", "for_body", "block"):
